@@ -111,6 +111,20 @@ static void single_participant(void){ for(int rep=0; rep<2 && !viol; rep++) for(
     for(int w=0; w<5000 && !atomic_load(&x.returned); w++) usleep(1000);
     if(!viol && (!atomic_load(&x.returned) || atomic_load(&x.ran)!=1)) fail("a dispatch_apply of one iteration did not complete with exactly one invocation after the queue could run items again: scenario / invocations / returned",sc,atomic_load(&x.ran),atomic_load(&x.returned));
     if(!viol){ pthread_join(t,0); dispatch_barrier_sync(q,^{}); dispatch_release(q); dispatch_release(s); } } }
+// a dispatch_apply with a single participant is a NON-barrier item of a concurrent queue: it runs alongside a running reader of that
+// queue, and from inside an item of the queue (a nested apply on the same queue) it returns
+static void single_not_barrier(void){ for(int sc=0; sc<3 && !viol; sc++){ dispatch_queue_t t = sc==1 ? dispatch_queue_create("nb.t",DISPATCH_QUEUE_CONCURRENT) : NULL;
+    dispatch_queue_t q = t ? dispatch_queue_create_with_target("nb.c",DISPATCH_QUEUE_CONCURRENT,t) : dispatch_queue_create("nb.c",DISPATCH_QUEUE_CONCURRENT);
+    __block _Atomic int a_in=0, applied=0, a_saw=0, a_out=0, nested_ret=0;
+    if(sc<2){ dispatch_async(q,^{ atomic_store(&a_in,1); for(int w=0; w<30000 && !atomic_load(&applied); w++) usleep(100); atomic_store(&a_saw,atomic_load(&applied)); atomic_store(&a_out,1); });
+      for(int w=0; w<30000 && !atomic_load(&a_in); w++) usleep(100);
+      dispatch_apply(1,q,^(size_t i){ (void)i; atomic_store(&applied,1); });
+      for(int w=0; w<40000 && !atomic_load(&a_out); w++) usleep(100);
+      if(!atomic_load(&a_saw)) fail("a dispatch_apply of one iteration on a concurrent queue did not run while a non-barrier item of that queue was running (it waited for it: it behaved as a barrier item): shape 0 plain, 1 concurrent over concurrent",sc,0,0); }
+    else { dispatch_async(q,^{ dispatch_apply(1,q,^(size_t i){ (void)i; atomic_store(&applied,1); }); atomic_store(&nested_ret,1); });
+      for(int w=0; w<50000 && !atomic_load(&nested_ret); w++) usleep(100);
+      if(!atomic_load(&nested_ret)) fail("a dispatch_apply of one iteration called from an item of the same concurrent queue did not return within 5 s",atomic_load(&applied),0,0); }
+    if(!viol){ dispatch_barrier_sync(q,^{}); dispatch_release(q); if(t) dispatch_release(t); } } }
 int main(int argc,char**argv){ seed=argc>1?strtoull(argv[1],0,0):1; rounds=argc>2?atoi(argv[2]):40; ncpu=(int)sysconf(_SC_NPROCESSORS_ONLN);
   evs=calloc(MAXEV,sizeof *evs);
   QS=dispatch_queue_create("s",NULL); QC=dispatch_queue_create("c",DISPATCH_QUEUE_CONCURRENT);
@@ -120,7 +134,7 @@ int main(int argc,char**argv){ seed=argc>1?strtoull(argv[1],0,0):1; rounds=argc>
   QCM=dispatch_queue_create_with_target("cm",DISPATCH_QUEUE_CONCURRENT,dispatch_get_main_queue()); int mh=_dispatch_get_main_queue_handle_4CF();
   _dispatch_verif_yield_cb=ycb; _dispatch_verif_atomic_cb=cb;
   narrow_chains();
-  single_participant();
+  single_participant(); single_not_barrier();
   struct sigaction sa; memset(&sa,0,sizeof sa); sa.sa_handler=on_usr1; sigaction(SIGUSR1,&sa,0);
   pthread_t th[4]; int nt=3; for(int i=0;i<nt;i++){ pthread_create(&th[i],0,client,0); cl_th[i]=th[i]; } cl_n=nt;
   pthread_t pg; pthread_create(&pg,0,pinger,0);
